@@ -68,7 +68,7 @@ func (e *progressEngine) callWeight(call *ast.CallExpr) int {
 		rt := sig.Recv().Type().String()
 		switch {
 		case strings.HasSuffix(rt, ".tokenReader"):
-			switch callee.Name() {
+			switch apiRole(callee.Name()) {
 			case "Next", "next", "readByte":
 				return 1
 			case "UnNext", "unreadByte":
